@@ -239,6 +239,22 @@ pub fn conway(max_tx_size: u32) -> ConwayProtParams {
 /// Protocol parameters of `era` with the given size limit (the only parameter
 /// any check varies: C36 sets it to the transaction's own size).
 pub fn multi_era(era: Era, max_tx_size: u64) -> MultiEraProtocolParameters {
+    multi_era_at(era, max_tx_size, 0)
+}
+
+/// The parameters in force at `slot`: the Conway set carries the PlutusV2 cost model from
+/// [`V2_MODEL_FROM_SLOT`] on (base B3v2); every other era's set does not depend on the slot
+/// (the Babbage validator reads languages and language views from network and slot itself).
+pub fn multi_era_at(era: Era, max_tx_size: u64, slot: u64) -> MultiEraProtocolParameters {
+    if era == Era::Conway && slot >= V2_MODEL_FROM_SLOT {
+        let mut p = conway(max_tx_size.min(u32::MAX as u64) as u32);
+        p.cost_models_for_script_languages.plutus_v2 = Some(PLUTUS_V2_COST_MODEL.to_vec());
+        return MultiEraProtocolParameters::Conway(p);
+    }
+    multi_era_inner(era, max_tx_size)
+}
+
+fn multi_era_inner(era: Era, max_tx_size: u64) -> MultiEraProtocolParameters {
     let m32 = max_tx_size.min(u32::MAX as u64) as u32;
     match era {
         Era::Byron => MultiEraProtocolParameters::Byron(byron(max_tx_size)),
@@ -250,7 +266,7 @@ pub fn multi_era(era: Era, max_tx_size: u64) -> MultiEraProtocolParameters {
 }
 /// Mainnet PlutusV2 cost model from epoch 394 on (175 entries) — copied once from
 /// the mainnet parameters (the Babbage validator hard-codes the language view per
-/// network and slot range; a change there shows as a rejected B4 base).
+/// network and slot range; a change there shows as a rejected B3v2 base).
 pub const PLUTUS_V2_COST_MODEL: [i64; 175] = [205665, 812, 1, 1, 1000, 571, 0, 1, 1000, 24177, 4, 1, 1000, 32, 117366, 10475, 4, 23000, 100, 23000, 100, 23000, 100, 23000, 100, 23000, 100, 23000, 100, 100, 100, 23000, 100, 19537, 32, 175354, 32, 46417, 4, 221973, 511, 0, 1, 89141, 32, 497525, 14068, 4, 2, 196500, 453240, 220, 0, 1, 1, 1000, 28662, 4, 2, 245000, 216773, 62, 1, 1060367, 12586, 1, 208512, 421, 1, 187000, 1000, 52998, 1, 80436, 32, 43249, 32, 1000, 32, 80556, 1, 57667, 4, 1000, 10, 197145, 156, 1, 197145, 156, 1, 204924, 473, 1, 208896, 511, 1, 52467, 32, 64832, 32, 65493, 32, 22558, 32, 16563, 32, 76511, 32, 196500, 453240, 220, 0, 1, 1, 69522, 11687, 0, 1, 60091, 32, 196500, 453240, 220, 0, 1, 1, 196500, 453240, 220, 0, 1, 1, 1159724, 392670, 0, 2, 806990, 30482, 4, 1927926, 82523, 4, 265318, 0, 4, 0, 85931, 32, 205665, 812, 1, 1, 41182, 32, 212342, 32, 31220, 32, 32696, 32, 43357, 32, 32247, 32, 38314, 32, 35892428, 10, 57996947, 18975, 10, 38887044, 32947, 10];
 /// First mainnet slot at which the validator uses [`PLUTUS_V2_COST_MODEL`].
 pub const V2_MODEL_FROM_SLOT: u64 = 84_844_885;
